@@ -204,7 +204,7 @@ impl<'a> StateMachine<'a> {
                     raw_line.len()
                 };
                 self.raw_line = raw_line[..truncated_len].to_string();
-                self.line.clone_from(&self.raw_line);
+                self.line = ansi::strip_ansi_codes(&self.raw_line);
             }
         }
     }
